@@ -145,6 +145,7 @@ type dqIter struct {
 func dqSafeNext(it iterator.Iterator[*dqVal]) (item *dqVal, ok bool, panicked bool) {
 	defer func() {
 		if p := recover(); p != nil {
+			passThrough(p)
 			panicked = true
 		}
 	}()
@@ -198,6 +199,7 @@ func (w *dqW) newVal() *dqVal {
 func (w *dqW) exec(op, i int, v *dqVal) (ret *dqVal, n int, panicked bool) {
 	defer func() {
 		if p := recover(); p != nil {
+			passThrough(p)
 			panicked = true
 		}
 	}()
@@ -524,6 +526,7 @@ func (w *dqW) check(op int, force bool) {
 	}
 	defer func() {
 		if p := recover(); p != nil {
+			passThrough(p)
 			r.Violate("C04", "deque/observer-panicked/after-"+dqOpName[op], "Len/Front/Back/Item panicked on a deque that the model says holds %d items: %v", w.m.n(), p)
 		}
 	}()
